@@ -337,6 +337,8 @@ META = (META[0] + " " + META_EXTRA, META[1])
 META = (META[0] + ' RAWDIFF (integer midpoint combines its arguments only in the unsigned type).', META[1])
 META = (META[0] + ' NEGMIN (no negation of a possible numeric_limits::min(): not a constant expression); NZB (classification builtins that only promise a non-zero result are used in boolean context only, because the constant folder and the run-time expansion return different non-zero values); ALIASMODE (a pointer-order test between two pointer parameters - the overlap question - is asked in both evaluation modes or in neither).', META[1])
 
+META = (META[0] + ' CONDORDER (counted C-string routines test the count before they read the element: reading one past a full field is not a constant expression).', META[1])
+
 
 def run(chk, tier):
     db = D.load("plain")
@@ -470,6 +472,8 @@ def run(chk, tier):
     _AR.positive_controls(chk, D, ("NEGMIN",))
     nzb_rule(chk, db)
     aliasmode_rule(chk, db)
+    from ..rules import extra8 as _X8c
+    _X8c.cond_order_area(chk, D.load('checks'), ['_string/char_traits', '_cstring/', '_cwchar/', '_strings/cstr'])      # CONDORDER: reading one past a full field is not a constant expression
     from ..rules import shift as _SH
     _SH.check(chk, db, ["_bit/", "_bitset/"], floor=20)      # SHIFT: shift counts stay below the promoted operand width
     chk.assumptions += [
